@@ -43,6 +43,11 @@ def xfer_probes():
                              observed="ISCSIDevice.execute with %d data-out bytes %s and %d data-in bytes hands the binding %s, expected %s" % (
                                  lo, c["out"][:4], li, r["iscsi"], want), probe=dict(key="ISCSIDevice.execute")))
             break
+        if r.get("iscsi_again") != want or r.get("sgio_again") != dict(out_len=lo, in_len=li):
+            hits.append(dict(kind="c03-xfer", id="re-issue: a command object issued again is not handed over with the buffers its CDB announces", case=c,
+                             observed="second execute() of one command object (%d data-out, %d data-in bytes; the device had transferred %d): iSCSI %s, SG_IO %s" % (
+                                 lo, li, li // 3, r.get("iscsi_again"), r.get("sgio_again")), probe=dict(key="execute (re-issue)")))
+            break
         if r["sgio"] != dict(out_len=lo, in_len=li):
             hits.append(dict(kind="c03-xfer", id="sgio: the buffers handed to sgio.execute are not the command's buffers", case=c,
                              observed="SCSIDevice.execute hands sgio.execute %s for buffers of %d / %d bytes" % (r["sgio"], lo, li), probe=dict(key="SCSIDevice.execute")))
@@ -72,6 +77,9 @@ def run(rep, tier, seed, summary):
         vlib.print_assumptions(rep, PID)
     bad = corr_ctors.run(rep, tier, seed, summary)
     known = {k["id"]: k for k in vlib.load_known() if k.get("property") == PID and k.get("status") == "known"}
+    xhits, nx = xfer_probes()
+    rep.suite("transfer set-up probes on both execute() functions (buffer lengths, all-zero payloads, short transfers, re-issue of one command object)",
+              nx, len(xhits))
     all_ok = ok and not bad and all(o[1] for o in rep.obligations)
     if all_ok and tier == "quick":
         return
@@ -90,8 +98,7 @@ def run(rep, tier, seed, summary):
         hits, n3 = param_list_probes(seed)
         nprobes += n3
     if not hits:
-        hits, n4 = xfer_probes()
-        nprobes += n4
+        hits, nprobes = xhits, nprobes + nx
     rep.extra["implementation_probes"] = nprobes
     new = [h for h in hits if h["id"] not in known]
     for h in hits:
